@@ -30,6 +30,18 @@ CHECKS = {
  'C33': ('exploration', 'run-time contract against an independent spec_expand over bounded enumeration of scripts and reference graphs',
          'scripts up to size 5 with references in type/code/data position, acyclic constant graphs to depth 3, unknown hashes; hash recomputed independently (Micheline encoder + blake2b + base58 expr)',
          'bounded; shell RPC stubbed by monkeypatch; specs/global_constants.py checked against 7 recorded hashes', '5/C33'),
+ 'C22': ('exploration', 'run-time relational contract on Interpreter.execute over exhaustively enumerated REPL sessions with injected failures (bounded)',
+         'all sessions up to length 4 (5 + subset of 6 thorough) over a 15-cell alphabet with a failing instruction injected at every position: stack, context, ownership invariant (big_maps refer to the interpreter context) and every later observable equal those of the session without the failing cells; heap aliasing/deepcopy is outside the deductive engine',
+         'bounded session length and cell alphabet; structural comparison of observables', '5/C22'),
+ 'C25': ('exploration', 'run-time contracts with ghost node state (account counter, mempool) over exhaustively enumerated client call sequences on a simulated node (bounded)',
+         'all well-formed call sequences up to length 5 (6 thorough) over build/fill/autofill/sign/inject ok|fail/send/new block: every injected group carries consecutive counters after node counter + pending operations; two fill()-only-path defects are recorded as known findings',
+         'simulated node (specs/C25_node.py) stubs the shell RPC; bounded sequence length; protocol-level history property: no inductive invariant attempted', '5/C25'),
+ 'C27': ('proof', 'PyVC: VCs from the real ASTs of _gen_error_variants and RpcError.from_errors over identifiers as z3 sequences of chunks and an uninterpreted registry (P); run-time contract on the live registry (R, not counted)',
+         'for identifiers of ANY number of chunks, ANY registry and error lists of ANY length: the raised class is the handler of the first registered variant in the order full id, id without proto.<protocol>., final component, category; generic RpcError otherwise; the last error is used',
+         "assumed: split('.')/'.'.join inverse on chunk sequences; registry uninterpreted; PyVC encoding; z3 sequence theory", '5/C27'),
+ 'C29': ('proof', 'PyVC: recursion contract (bisect, measure end-start), loop invariants with per-iteration yield obligations over an uninterpreted history function with the convexity precondition, z3 (P); run-time contract over all histories on ranges <= 40 (R, not counted)',
+         'find_state_change returns the first differing level for all ranges; walk_state_change_interval yields exactly the change points in increasing order; find_state_change_intervals samples chain from head down to last for all steps >= 1 and yields exactly the gaps whose end values differ; composition in find_state_changes (reversed list + yield from) is covered by the bounded part only',
+         'assumed: get = uninterpreted G, equals = equality; generators as ghost sequences; per-iteration facts compose by induction (stated); PyVC encoding; z3 quantifier instantiation', '5/C29'),
  'C28': ('proof', 'PyVC: VCs from the real AST of RpcMultiNode.request with ghost request counter, z3 (P); run-time contract over all outcome sequences (R, bounded, not counted)',
          'the rotation invariant _next_i == k mod n is preserved by request on normal and exceptional exit for all n >= 1, all k, with the inner request havocked (returns or raises RpcError/any exception): by induction every outcome sequence sends request i to node i mod n',
          'assumed: self.nodes is a list of n>=1 nodes; inner request havocked; PyVC encoding; z3', '5/C28'),
